@@ -604,6 +604,14 @@ impl<'a> G<'a> {
         };
         let saved_audit = self.audit;
         self.audit = false;
+        // the instances at the candidate values: a value outside the candidate set is also harmless if its
+        // instance equals one of these (and/or are idempotent) - the case of a variable the scope does not depend on
+        let mut cand_instances: Vec<P> = vec![];
+        for c in cands {
+            self.env.push(((v.name.clone(), v.sort), c.clone()));
+            cand_instances.push(self.expand(ex, others, body));
+            self.env.pop();
+        }
         for d in dom {
             if cands.contains(&d) {
                 continue;
@@ -612,7 +620,7 @@ impl<'a> G<'a> {
             self.env.push(((v.name.clone(), v.sort), d.clone()));
             let r = self.expand(ex, others, body);
             self.env.pop();
-            let ok = if ex { r == P::F } else { r == P::T };
+            let ok = (if ex { r == P::F } else { r == P::T }) || cand_instances.contains(&r);
             if !ok {
                 self.audit_failures.push(format!(
                     "solver audit: {} {}={} not in candidates {:?} but scope is not constant: {}",
